@@ -146,9 +146,11 @@ class StaticApplication(Application):
                  cache_timeout=DEFAULT_MAX_AGE,
                  default_text_mime=DEFAULT_TEXT_MIME,
                  default_binary_mime=DEFAULT_BINARY_MIME):
-        if isinstance(search_paths, (str, bytes)):
+        if isinstance(search_paths, (str, bytes, os.PathLike)):
             search_paths = [search_paths]
-        self.search_paths = search_paths
+        # a list of text paths, whatever was passed in: one path or
+        # several, as str, bytes or os.PathLike, in a one-shot iterable
+        self.search_paths = [os.fsdecode(sp) for sp in search_paths]
         self.cache_timeout = cache_timeout
         self.default_text_mime = default_text_mime
         self.default_binary_mime = default_binary_mime
